@@ -315,6 +315,10 @@ def gen_case(rng, index, tier):
               'top/a/foo/bar', 'top/a b', 'top/nothing-here']
     sc = rng.choice(scopes)
     how = rng.choice(['cwd', 'cwd', 'arg-abs', 'arg-rel', 'arg-trailing-slash'])
+    if rng.random() < 0.1:
+        # the path argument is (now) a symbolic link to a directory: original
+        # locations are compared as recorded, nothing is resolved
+        how = 'arg-link-dir'
     L.add({'p': 'top', 't': 'd'})
     if how == 'cwd' or how == 'arg-rel':
         # the scope directory must exist to be the cwd; create it unless an
@@ -329,6 +333,11 @@ def gen_case(rng, index, tier):
     case['overwrite'] = rng.random() < (0.6 if dup else 0.1)
     nin = len([e for e in entries if spec.in_scope('/' + e['loc'], '/' + sc if sc else '/')])
     case['reply'], case['rclass'] = gen_reply(rng, nin)
+    if how == 'arg-link-dir' and any(
+            e['loc'] == sc or sc.startswith(e['loc'] + '/') for e in entries):
+        how = case['how'] = 'arg-abs'       # the link would sit on a destination
+    if how == 'arg-link-dir':
+        case['reply'], case['rclass'] = 'q', 'malformed-link-scope'
     if rng.random() < 0.08:
         # a terminal / locale that cannot show every name (PYTHONIOENCODING,
         # legacy 8-bit locales): refusing to go on is fine, showing one thing
@@ -453,6 +462,15 @@ def run_case(case):
                 else:
                     os.makedirs(sc_abs)
             cwd = sc_abs
+        if how == 'arg-link-dir':
+            if os.path.lexists(sc_abs) or sc_abs == w.R:
+                how = 'arg-abs'
+            else:
+                os.makedirs(os.path.dirname(sc_abs), exist_ok=True)
+                os.makedirs(w.R + '/moved-away/a/foo')
+                os.symlink(w.R + '/moved-away', sc_abs)
+                obs['scope_is_a_link_to_a_directory'] = 1
+                args.append(sc_abs)
         if how == 'arg-abs':
             args.append(sc_abs)
         elif how == 'arg-rel':
